@@ -184,11 +184,19 @@ Ltac own_change Hh :=
 Ltac finish_frame Hh :=
   unfold log_bind;
   try match goal with |- context [match wget ?a ?b ?c with _ => _ end] => destruct (wget a b c) end;
-  eapply linv_frame;
-  [ eassumption | eassumption | cbn; reflexivity
-  | unfold pc_ok; cbn in *; try assumption; try reflexivity
-  | unfold holds in *; own_holds Hh
-  | unfold holds in *; own_change Hh ].
+  (eapply linv_frame;
+   [ eassumption | eassumption | cbn; reflexivity
+   | unfold pc_ok; cbn in *; try assumption; try reflexivity
+   | unfold holds in *; own_holds Hh
+   | unfold holds in *; own_change Hh ]).
+
+Lemma upd_same : forall A (l : list A) n x, nth_error l n = Some x -> upd l n x = l.
+Proof.
+  induction l as [|a l IH]; intros [|n] x H; unfold upd; fold (@upd A); unfold nth_error in H; fold (@nth_error A) in H;
+    try reflexivity; try discriminate.
+  - congruence.
+  - f_equal. now apply IH.
+Qed.
 
 Theorem step_preserves_linv : forall s t s', linv s -> step s t = Some s' -> linv s'.
 Proof.
@@ -207,4 +215,7 @@ Proof.
          cons_raises in Hstep;
     cbn in Hstep; break_hyp Hstep; inversion Hstep; subst; clear Hstep; try assumption.
   all: try (finish_frame Hh).
+  (* set_cache_size's loop body: only the strong cache changes *)
+  eapply linv_frame; [eassumption|eassumption|cbn; symmetry; apply upd_same; eassumption
+                     |reflexivity|unfold holds in *; own_holds Hh|unfold holds in *; own_change Hh].
 Qed.
